@@ -95,6 +95,8 @@ type Run struct {
 	casesF   *os.File
 	implF    *os.File
 	nextID   int
+	live     *bufio.Writer
+	liveF    *os.File
 	Evals    int
 	distinct map[[32]byte]bool
 	Hist     map[string]int
@@ -166,6 +168,10 @@ func (r *Run) Finish() {
 	r.impl.Flush()
 	r.casesF.Close()
 	r.implF.Close()
+	if r.live != nil {
+		r.live.Flush()
+		r.liveF.Close()
+	}
 	keys := make([]string, 0, len(r.Hist))
 	for k := range r.Hist {
 		keys = append(keys, k)
